@@ -444,7 +444,7 @@ func (c *Ctx) errBlocks(r *Report, pa *ssa.Function, facts *Facts) {
 					succ = 1
 				}
 				start := bb.Succs[succ]
-				q := &PathQ{c: c, Fn: pa, CutIn: orPred(storeErr, recov), Facts: facts}
+				q := &PathQ{c: c, Fn: pa, CutIn: orPred(storeErr, recov), Facts: facts, InitNil: []nilKnow{{v, false}}}
 				// seed the fact state with the edge taken
 				st, _ := facts.edge(bb, succ, 0)
 				var after *ssa.BasicBlock // the block following the loop (header's exit successor)
